@@ -17,8 +17,8 @@ INVS = ["TypeOK", "EveryRaiseSeenByHandler", "SwallowedIffTrue", "PropagatesIffF
         "TransparentWhenQuiet", "DriveComplete"]
 
 # bound profiles are defined in CatchSched.tla (AllProfiles); one exhaustive TLC run enumerates a whole set
-QUICK = {"q_trees", "q_periodic", "q_mixed"}
-THOROUGH = {"q_trees", "q_periodic", "q_mixed", "t_trees", "t_forest", "t_periodic", "t_mixed"}
+QUICK = {"q_trees", "q_periodic", "q_mixed", "q_cancel"}
+THOROUGH = {"q_trees", "q_periodic", "q_mixed", "q_cancel", "t_trees", "t_forest", "t_periodic", "t_mixed"}
 
 
 def _tlc(job):
@@ -99,6 +99,7 @@ def run(tier: str) -> int:
         "periodic_cancelled": sum(1 for g in groups if "per" in g[0]["kind"] and any(
             c["c"] == "cancel" and g[0]["kind"][c["a"] - 1] == "per" for b in g[0]["body"] for inv in b for c in inv)),
     }
+    vac["two_allowed_clocks"] = sum(1 for g in groups if len(g[1]) > 1)
     ck.note("vacuity", vac)
     if not all(vac.values()):
         raise RuntimeError(f"vacuous model run: {vac}")
